@@ -290,7 +290,7 @@ def _replay_log(stem, vals):
               'lists hold exactly the positions, counted in non-blank lines, of the trigger lines of ANY log', replay=_replay_log, timeout_ms=20000)
 def scan_transfer(E, L):
     block, info = _extract(L, LOGF, 'read', _is_line_for)
-    E.prove('scan.block_found', info['last_line'] > info['first_line'])
+    E.shape('scan.block_found', info['last_line'] > info['first_line'])
     # static: every use of `line` inside the loop is one of the whitelisted tests
     mod = L.load(LOGF)
     import os as _os
@@ -368,7 +368,7 @@ def _is_perf_for(n):
        replay=_replay_log, timeout_ms=30000)
 def scan_dispatch(E, L):
     block, info = _extract_range(L, LOGF, 'read', _is_append_total, _is_perf_for)
-    E.prove('dispatch.block_found', info['last_line'] > info['first_line'])
+    E.shape('dispatch.block_found', info['last_line'] > info['first_line'])
     first = True
     for nth, ntf, nperf, existing in ((1, 1, 1, 0), (2, 2, 2, 1), (2, 1, 1, 0), (3, 3, 0, 2), (1, 0, 0, 0)):
         th = [E.int('th%d' % k) for k in range(nth)]
